@@ -230,6 +230,38 @@ def build_harness(binname, release=False):
         return os.path.join(TARGET, 'release' if release else 'debug', binname), out
 
 
+_ESC = [None]
+def escalation():
+    """Source fingerprint (DESIGN 4.5): does /repo's working tree differ from the validated baseline (baseline.json) in
+    graph/src or pie/src?  Never an alarm: it only multiplies the number of generated cases of the quick tier, because a changed
+    behaviour can only sit in changed code and a rare trigger deserves more draws there.  Returns (factor, changed files)."""
+    if _ESC[0] is not None:
+        return _ESC[0]
+    factor, files = 1, []
+    try:
+        base = json.load(open(os.path.join(ROOT, 'baseline.json')))['repo_commit']
+        rc, out, _ = sh(['git', '-C', '/repo', 'diff', '--name-only', base, '--', 'graph/src', 'pie/src'])
+        if rc == 0:
+            files = [l for l in out.split('\n') if l.strip()]
+        else:
+            files = ['<baseline commit unknown to /repo>']
+        rc, out, _ = sh(['git', '-C', '/repo', 'status', '--porcelain', '--', 'graph/src', 'pie/src'])
+        files += [l[3:] for l in out.split('\n') if l.startswith('??')]
+        if files:
+            factor = int(os.environ.get('VERIF_ESCALATE', '3') or 3)
+    except Exception as e:
+        files = ['<fingerprint unavailable: %s>' % e]
+    _ESC[0] = (max(1, factor), sorted(set(files)))
+    return _ESC[0]
+
+
+def quick_n(n, tier):
+    """number of generated cases: the quick tier's n, multiplied when the source fingerprint differs from the baseline"""
+    if tier != 'quick':
+        return n
+    return n * escalation()[0]
+
+
 def repo_state():
     rc, head, _ = sh(['git', '-C', '/repo', 'rev-parse', 'HEAD'])
     rc, diff, _ = sh(['git', '-C', '/repo', 'diff', 'HEAD', '--', '.'])
@@ -256,6 +288,13 @@ def write_replay(prop, seed, n, payload):
 def write_evidence(prop, tier, seed, coverage, assumptions, wall, violations):
     d = os.path.join(ROOT, 'evidence')
     os.makedirs(d, exist_ok=True)
+    try:
+        f, files = escalation()
+        coverage = dict(coverage)
+        coverage['source_fingerprint'] = {'repo_differs_from_validated_baseline': bool(files), 'changed_files': files[:20],
+                                          'quick_tier_case_factor': (f if tier == 'quick' else 1)}
+    except Exception:
+        pass
     ev = {'property_id': prop, 'tier': tier, 'seed': seed, 'level': 'proof', 'coverage': coverage,
           'assumptions': assumptions, 'wall_s': round(wall, 2), 'violations': violations}
     json.dump(ev, open(os.path.join(d, prop + '.json'), 'w'), indent=1)
